@@ -406,18 +406,33 @@ def _format_to_fstring(c: ast.Call):
         return None
     values = []
     k = 0
+    numbered = False
     for lit, name, spec, conv in fields:
         if lit:
             values.append(ast.Constant(value=lit))
         if name is None:
             continue
-        if name != "" or spec or conv not in (None, "r", "s"):
+        if spec or conv not in (None, "r", "s"):
+            return None
+        if name.isdigit():  # explicit positions `{0} … {1}` (each argument used once, in order, is the common case; any order is fine)
+            if int(name) >= len(c.args):
+                return None
+            values.append(ast.FormattedValue(value=copy.deepcopy(c.args[int(name)]), conversion={None: -1, "r": 114, "s": 115}[conv], format_spec=None))
+            numbered = True
+            continue
+        if name != "":
             return None
         if k >= len(c.args):
             return None
         values.append(ast.FormattedValue(value=c.args[k], conversion={None: -1, "r": 114, "s": 115}[conv], format_spec=None))
         k += 1
-    if k != len(c.args):
+    if numbered:
+        if k != 0:
+            return None
+        used = {int(n_) for _, n_, _, _ in fields if n_ and n_.isdigit()}
+        if used != set(range(len(c.args))):
+            return None  # an argument that is never printed would still be evaluated
+    elif k != len(c.args):
         return None
     return ast.copy_location(ast.JoinedStr(values=values), c)
 
@@ -1107,6 +1122,44 @@ def canonical_prefix_tests(tree: ast.Module) -> int:
     return total
 
 
+def canonical_removeprefix(tree: ast.Module) -> int:
+    """After `if not X.startswith("kw"): raise …` in the same block (X an attribute chain / name that is not stored in
+    between), `X.removeprefix("kw")` is `X[len("kw"):]` — the prefix is known to be there."""
+    total = 0
+    for holder in ast.walk(tree):
+        for fld in ("body", "orelse", "finalbody"):
+            block = getattr(holder, fld, None)
+            if not (isinstance(block, list) and block and isinstance(block[0], ast.stmt)):
+                continue
+            for i, st in enumerate(block):
+                if not (isinstance(st, ast.If) and not st.orelse and st.body and isinstance(st.body[-1], ast.Raise)):
+                    continue
+                t = st.test
+                if not (isinstance(t, ast.UnaryOp) and isinstance(t.op, ast.Not) and isinstance(t.operand, ast.Call) and isinstance(t.operand.func, ast.Attribute)
+                        and t.operand.func.attr == "startswith" and len(t.operand.args) == 1 and isinstance(t.operand.args[0], ast.Constant) and isinstance(t.operand.args[0].value, str)):
+                    continue
+                x, k = ast.unparse(t.operand.func.value), t.operand.args[0].value
+                for later in block[i + 1:]:
+                    if any(isinstance(n, (ast.Name, ast.Attribute)) and isinstance(n.ctx, (ast.Store, ast.Del)) and ast.unparse(n) == x for n in ast.walk(later)):
+                        break
+
+                    class T(ast.NodeTransformer):
+                        def visit_Call(self, c):
+                            nonlocal total
+                            self.generic_visit(c)
+                            if isinstance(c.func, ast.Attribute) and c.func.attr == "removeprefix" and len(c.args) == 1 and isinstance(c.args[0], ast.Constant) \
+                                    and c.args[0].value == k and ast.unparse(c.func.value) == x:
+                                total += 1
+                                ln = ast.Call(func=ast.Name(id="len", ctx=ast.Load()), args=[ast.Constant(value=k)], keywords=[])
+                                return ast.copy_location(ast.Subscript(value=c.func.value, slice=ast.Slice(lower=ln, upper=None, step=None), ctx=ast.Load()), c)
+                            return c
+
+                    block[block.index(later)] = T().visit(later)
+    if total:
+        ast.fix_missing_locations(tree)
+    return total
+
+
 def canonical_str_calls(tree: ast.Module, facts) -> int:
     """`x.generate_string(True)` is written `str(x)` (facts['str_method']: the base class's `__str__` is exactly that call
     and no class that has the method overrides `__str__`); not inside the `__str__` that defines the equivalence."""
@@ -1208,15 +1261,27 @@ def propagate_stable_aliases(tree: ast.Module, facts) -> int:
             block, st = sites[0]
             # every use comes after the assignment: the assignment is a top-level statement and no use precedes it
             idx = block.index(st)
-            early_defs = {prev.name for prev in block[:idx] if isinstance(prev, FUNC)}
+            early = {prev.name: prev for prev in block[:idx] if isinstance(prev, FUNC)}
+            # closures that read the name themselves or call (by name) a closure that does
+            reads = {k for k, d in early.items() if _loads(d, name)}
+            grew = True
+            while grew:
+                grew = False
+                for k, d in early.items():
+                    if k not in reads and any(isinstance(c, ast.Call) and isinstance(c.func, ast.Name) and c.func.id in reads for c in ast.walk(d)):
+                        reads.add(k)
+                        grew = True
             bad = False
             for prev in block[:idx]:
                 if isinstance(prev, FUNC):
                     continue  # a nested function reads the name when it is *called*
                 if _loads(prev, name):
                     bad = True
-                if any(isinstance(c, ast.Call) and isinstance(c.func, ast.Name) and c.func.id in early_defs for c in ast.walk(prev)):
-                    bad = True  # a closure that may read the name runs before the assignment
+                if any(isinstance(c, ast.Call) and isinstance(c.func, ast.Name) and c.func.id in reads for c in ast.walk(prev)):
+                    bad = True  # a closure that reads the name runs before the assignment
+                if any(isinstance(c, ast.Name) and isinstance(c.ctx, ast.Load) and c.id in reads and not isinstance(getattr(c, "_p", None), ast.Call) for c in ast.walk(prev)
+                       if not any(isinstance(k_, ast.Call) and k_.func is c for k_ in ast.walk(prev))):
+                    bad = True  # such a closure escapes as a value before the assignment
             if bad:
                 continue
             # `self` must still mean the same object where the alias is used: no nested function re-binds self
@@ -1946,8 +2011,42 @@ def recompute_loop_carried_tests(tree: ast.Module) -> int:
     return total
 
 
+# ---------------------------------------------------------------------------------------------- (24) parallel assignment of independent values
+def split_parallel_assignments(tree: ast.Module) -> int:
+    """`a, b = x, y` (displays of equal length, plain names as targets, no target read by any of the values, no starred
+    element) is written `a = x; b = y`."""
+    total = 0
+    for holder in ast.walk(tree):
+        for fld in ("body", "orelse", "finalbody"):
+            block = getattr(holder, fld, None)
+            if not (isinstance(block, list) and block and isinstance(block[0], ast.stmt)):
+                continue
+            i = 0
+            while i < len(block):
+                st = block[i]
+                i += 1
+                if not (isinstance(st, ast.Assign) and len(st.targets) == 1 and isinstance(st.targets[0], (ast.Tuple, ast.List)) and isinstance(st.value, (ast.Tuple, ast.List))):
+                    continue
+                ts, vs = st.targets[0].elts, st.value.elts
+                if len(ts) != len(vs) or len(ts) < 2 or not all(isinstance(t, ast.Name) for t in ts) or any(isinstance(v, ast.Starred) for v in vs):
+                    continue
+                names = {t.id for t in ts}
+                if len(names) != len(ts) or any(isinstance(n, ast.Name) and n.id in names for v in vs for n in ast.walk(v)):
+                    continue
+                if any(isinstance(n, (ast.NamedExpr, ast.Yield, ast.Await)) for v in vs for n in ast.walk(v)):
+                    continue
+                new = [ast.copy_location(ast.Assign(targets=[t], value=v), st) for t, v in zip(ts, vs)]
+                block[i - 1:i] = new
+                i += len(new) - 1
+                total += 1
+    if total:
+        ast.fix_missing_locations(tree)
+    return total
+
+
 def normalise(tree: ast.Module, keep=frozenset(), facts=None) -> Dict[str, int]:
     strip_annotations(tree)
+    split_parallel_assignments(tree)
     recompute_loop_carried_tests(tree)
     inline_private_constants(tree, keep)
     inline_lazy_loop_constants(tree)
@@ -1957,6 +2056,7 @@ def normalise(tree: ast.Module, keep=frozenset(), facts=None) -> Dict[str, int]:
     k8 = positional_package_arguments(tree, facts)
     k8 += canonical_str_calls(tree, facts)
     k8 += canonical_prefix_tests(tree)
+    k8 += canonical_removeprefix(tree)
     k9 = propagate_stable_aliases(tree, facts)
     k9 += propagate_pure_temporaries(tree, facts)
     k9 += propagate_stable_aliases(tree, facts)
